@@ -138,7 +138,7 @@ def corrupt_cache(p, cls):
     with open(p, 'rb') as fh:
         raw = fh.read()
     kind, _, param = cls.partition(':')
-    n = int(param) if param else 0
+    n = int(param) if param and param.lstrip('-').isdigit() else 0
     if kind == 'truncate':
         out = raw[:max(0, min(len(raw) - 1, n))]
     elif kind == 'bitflip':
@@ -166,6 +166,28 @@ def corrupt_cache(p, cls):
         out = gzip.compress(json.dumps(j).encode())
     elif kind == 'empty':
         out = b''
+    elif kind in ('field', 'opfield'):
+        # valid gzip, valid JSON, right software and version - but one field has a value of the wrong type
+        name, _, val = param.partition('=')
+        j = json.loads(gzip.decompress(raw))
+        if kind == 'field':
+            j[name] = json.loads(val)
+        else:
+            ops = j.get('rootOperations') or []
+            target = None
+            stack = list(ops)
+            while stack:            # the first operation (depth first) that has this field
+                o = stack.pop(0)
+                if isinstance(o, dict) and name in o:
+                    target = o
+                    break
+                if isinstance(o, dict):
+                    stack = list(o.get('suboperations') or []) + stack
+            if target is None:
+                j['createdDirs'] = json.loads(val) if not isinstance(json.loads(val), list) else 7
+            else:
+                target[name] = json.loads(val)
+        out = gzip.compress(json.dumps(j).encode())
     else:
         raise ValueError(cls)
     with open(p, 'wb') as fh:
@@ -309,6 +331,7 @@ def run_case(case, hooks=None, mutate=False):
                 before_tmp = tmp_leftovers()
 
                 def rootf(b, a):
+                    ctx.root_entered = True
                     r_ = dsl.run_func(ctx, root_idx, b, None, a, {}, is_root=True)
                     ctx.root_returned = True
                     return r_
@@ -334,6 +357,7 @@ def run_case(case, hooks=None, mutate=False):
                 for k_, v_ in ctx.spellings.items():
                     spelled[k_] = spelled.get(k_, 0) + v_
                 obs = {'res': res, 'tree': snapshot(root, cache_abs), 'inv': ctx.inv, 'root': root, 'spelled': dict(ctx.spellings),
+                       'root_called': bool(getattr(ctx, 'root_entered', False)),
                        'cache_json': read_cache_json(cache_abs) if 'ok' in res and os.path.isfile(cache_abs) else None,
                        'queries': ctx.query_log, 'contract': ctx.contract,
                        'tmp_leak': [n for n in tmp_leftovers() if n not in before_tmp]}
